@@ -402,7 +402,7 @@ func runProgAsync(t *testing.T) {
 	})
 }
 
-var subs = map[string]vdrv.ReplayFunc{"fold": replayFold, "folddeep": replayFold, "prog": replayProg, "progasync": replayProg}
+var subs = map[string]vdrv.ReplayFunc{"fold": replayFold, "folddeep": replayFold, "prog": replayProg, "progasync": replayProg, "xmod": replayX}
 
 func setup(t *testing.T) {
 	H = vdrv.New("C03")
@@ -423,6 +423,7 @@ func TestCheck(t *testing.T) {
 	H.Sub(t, "folddeep", runFoldDeep)
 	H.Sub(t, "prog", runProg)
 	H.Sub(t, "progasync", runProgAsync)
+	H.Sub(t, "xmod", runXmod)
 	complete = true
 }
 
